@@ -31,7 +31,10 @@ Inters == SubSeq(AllInters, 1, NInter)
 DerivsB == <<"dx_dt", "dy_dt">>
 Build == Inters \o DerivsB
 Leaves == {"x", "y", "p", "q", "t", "U"}
-Allowed(i, lo) == (IF lo = "noparams" THEN Leaves \ {"p", "q", "U"} ELSE Leaves) \cup ({Build[j] : j \in 1..(i - 1)} \ {"dx_dt", "dy_dt"})
+\* the rate built last (dy_dt) may also read the other rate, dx_dt, as a value (I_cap = Cm*dV_dt; the Myokit importer
+\* writes dot(V) this way): in the split layout that is a state derivative read across the component boundary
+Allowed(i, lo) == (IF lo = "noparams" THEN Leaves \ {"p", "q", "U"} ELSE Leaves)
+                  \cup ({Build[j] : j \in 1..(i - 1)} \ (IF i = Len(Build) THEN {"dy_dt"} ELSE {"dx_dt", "dy_dt"}))
 DepChoices(i, lo) == {S \in SUBSET Allowed(i, lo) : Cardinality(S) <= 2}
 LitTok(i) == CASE i = 1 -> "3" [] i = 2 -> "5" [] i = 3 -> "7" [] i = 4 -> "2" [] i = 5 -> "4" [] OTHER -> "6"
 
